@@ -51,7 +51,8 @@ def poly_terms(poly):
 
 
 class Rec(dimod.Sampler):
-    """records every call that reaches the wrapped BQM sampler"""
+    """records every call that reaches the wrapped BQM sampler: `attempts` before the child is
+    called (method, input), `calls` after it returned (method, input, output)"""
     parameters = None
     properties = None
 
@@ -60,6 +61,7 @@ class Rec(dimod.Sampler):
         self.parameters = dict(child.parameters or {})
         self.properties = {}
         self.calls = []
+        self.attempts = []
 
     def sample(self, bqm, **kw):
         inp = bqm.copy()
@@ -67,21 +69,60 @@ class Rec(dimod.Sampler):
             inp.info = dict(getattr(bqm, 'info', {}) or {})
         except Exception:
             pass
+        self.attempts.append(("sample", inp))
         ss = self.child.sample(bqm, **kw)
         self.calls.append(("sample", inp, snap(ss)))
         return ss
 
     def sample_ising(self, h, J, **kw):
         inp = (dict(h) if isinstance(h, dict) else dict(enumerate(h)), dict(J))
+        self.attempts.append(("ising", inp))
         ss = self.child.sample_ising(h, J, **kw)
         self.calls.append(("ising", inp, snap(ss)))
         return ss
 
     def sample_qubo(self, Q, **kw):
         inp = dict(Q)
+        self.attempts.append(("qubo", inp))
         ss = self.child.sample_qubo(Q, **kw)
         self.calls.append(("qubo", inp, snap(ss)))
         return ss
+
+
+def inp_parts(method, inp):
+    """(offset, linear items, quadratic triples, variables, interactions) of a recorded input"""
+    if method == 'sample':
+        return (inp.offset, list(inp.linear.items()), [(u, v, b) for (u, v), b in inp.quadratic.items()],
+                list(inp.variables), [(u, v) for (u, v) in inp.quadratic.keys()])
+    if method == 'ising':
+        h, J = inp
+        vs = list(h)
+        for u, v in J:
+            for x in (u, v):
+                if not any(x == y and type(x) is type(y) for y in vs):
+                    vs.append(x)
+        return 0, list(h.items()), [(u, v, b) for (u, v), b in J.items()], vs, [k for k in J if k[0] != k[1]]
+    vs = []
+    for u, v in inp:
+        for x in (u, v):
+            if not any(x == y and type(x) is type(y) for y in vs):
+                vs.append(x)
+    lin, quad = fold_selfloops([], [(u, v, b) for (u, v), b in inp.items()])
+    return 0, lin, quad, vs, [k for k in inp if k[0] != k[1]]
+
+
+def inp_term(T, method, inp):
+    off, lin, quad, _, _ = inp_parts(method, inp)
+    return poly_obs_term(T, off, lin, quad)
+
+
+def tracked_method(d):
+    if 'bqm' in d:
+        return 'sample', d['bqm']
+    if 'h' in d:
+        h = d['h']
+        return 'ising', (dict(h) if isinstance(h, dict) else dict(enumerate(h)), dict(d['J']))
+    return 'qubo', dict(d['Q'])
 
 
 class PolyRec(dimod.PolySampler):
@@ -196,7 +237,7 @@ def gen_quad_problem(rng, entry, nmax=6, nmin=0):
 
 
 def gen_bqm_base(rng, small=False):
-    base = rng.choice(['exact', 'exact', 'exact', 'random', 'sa', 'identity', 'null'])
+    base = rng.choice(['exact', 'exact', 'exact', 'random', 'sa', 'identity', 'identity', 'identity', 'null'])
     kw = {"base": base}
     if base == 'random':
         kw["num_reads"] = rng.randint(1, 5)
@@ -206,13 +247,18 @@ def gen_bqm_base(rng, small=False):
         kw["num_sweeps"] = rng.randint(2, 6)
         kw["pyseed"] = rng.randint(0, 2 ** 31)
     elif base == 'identity':
-        kw["num_reads"] = rng.choice([None, 1, 2, 4])
+        kw["num_reads"] = rng.choice([None, None, 1, 2, 3, 4, 5, 7, 0])
+        kw["mismatch"] = rng.choice([None, None, None, None, None, None, 'drop', 'extra'])
         kw["seed"] = rng.randint(0, 2 ** 31)
         kw["isg"] = rng.choice(['random', 'tile', 'none'])
-        kw["ninit"] = rng.randint(0, 3)
+        kw["ninit"] = rng.randint(0, 5)
         kw["init_form"] = rng.choice(['dicts', 'array'])
         kw["init_vt"] = rng.choice(['same', 'same', 'other'])
         kw["init_seed"] = rng.randint(0, 2 ** 31)
+        if kw["isg"] == 'tile' and kw["ninit"] >= 2 and rng.random() < 0.6:
+            kw["num_reads"] = kw["ninit"] + rng.randint(1, 2 * kw["ninit"])      # tiling with a remainder
+        elif kw["ninit"] >= 2 and rng.random() < 0.3:
+            kw["num_reads"] = rng.randint(1, kw["ninit"] - 1)                     # truncation
     return kw
 
 
@@ -226,7 +272,8 @@ def gen_bqm_layers(rng):
         elif t == 'track':
             layers.append({"t": t, "copy": rng.random() < 0.5})
         else:
-            layers.append({"t": t})
+            # structure: complete (accepts everything over the variables) or partial
+            layers.append({"t": t, "partial": rng.random() < 0.4, "sseed": rng.randint(0, 2 ** 31)})
     return layers
 
 
@@ -536,7 +583,18 @@ def make_bqm_base(c, variables, vt):
         vals = [0, 1] if ivt == 'BINARY' else [-1, 1]
         order = list(variables)
         r.shuffle(order)
-        rows = [[r.choice(vals) for _ in order] for _ in range(c["ninit"])]
+        if c.get("mismatch") == 'drop' and order:
+            order = order[1:]
+        elif c.get("mismatch") == 'extra':
+            order = order + ['zzz9']
+        rows = []
+        for _ in range(c["ninit"]):
+            row = [r.choice(vals) for _ in order]
+            for _try in range(20):      # prefer distinct rows: order / tiling / truncation become visible
+                if row not in rows:
+                    break
+                row = [r.choice(vals) for _ in order]
+            rows.append(row)
         kw = dict(initial_states_generator=c["isg"], seed=c["seed"])
         if c["num_reads"] is not None:
             kw["num_reads"] = c["num_reads"]
@@ -547,10 +605,27 @@ def make_bqm_base(c, variables, vt):
             else:
                 init = (np.array(rows, dtype=np.int8), order)
             kw["initial_states"] = dimod.SampleSet.from_samples(init, vartype=ivt, energy=[0] * len(rows))
+            kw["_init_vt"] = ivt
     return s, kw
 
 
+def make_structure(l, variables):
+    """nodelist / edgelist of a StructureComposite layer"""
+    import random
+    variables = list(variables)
+    if not l.get("partial"):
+        return variables, list(itertools.combinations(variables, 2))
+    r = random.Random(l["sseed"])
+    nodes = [v for v in variables if r.random() < 0.85] + (['node_x'] if r.random() < 0.3 else [])
+    edges = []
+    for u, v in itertools.combinations(nodes, 2):
+        if r.random() < 0.7:
+            edges.append((u, v) if r.random() < 0.5 else (v, u))
+    return nodes, edges
+
+
 def run_bqm(c):
+    from dimod.exceptions import BinaryQuadraticModelStructureError
     entry = c["entry"]
     prob = c["prob"]
     vt = prob["vartype"]
@@ -561,28 +636,41 @@ def run_bqm(c):
     feats = {"kind": "bqm", "entry": entry, "base": c["base"], "layers": "+".join(l["t"] for l in c["layers"]),
              "empty_problem": len(variables) == 0}
     base, kw = make_bqm_base(c, variables, vt)
+    init_vt = kw.pop("_init_vt", None)
     recs = []
+    objs = []
+    structs = {}
     s = Rec(base)
     recs.append(s)
-    for l in reversed(c["layers"]):
+    for idx in range(len(c["layers"]) - 1, -1, -1):
+        l = c["layers"][idx]
         if l["t"] == 'trunc':
             s = dimod.TruncateComposite(s, l["n"], sorted_by=l["sorted_by"], aggregate=bool(l.get("aggregate")))
         elif l["t"] == 'track':
             s = dimod.TrackingComposite(s, copy=l["copy"])
         else:
-            s = dimod.StructureComposite(s, list(variables), list(itertools.combinations(variables, 2)))
+            nodes, edges = make_structure(l, variables)
+            structs[idx] = (nodes, edges)
+            s = dimod.StructureComposite(s, nodes, edges)
+        objs.append(s)
         s = Rec(s)
         recs.append(s)
     recs.reverse()     # recs[0] wraps the outermost layer; recs[i+1] is the child of layer i
+    objs.reverse()
     top = recs[0]
+    raised = None
+    ss = None
     try:
         ss = getattr(top, {'sample': 'sample', 'ising': 'sample_ising', 'qubo': 'sample_qubo'}[entry])(*args, **kw)
-    except ValueError as e:
-        if c["base"] == 'identity':
-            # documented rejections of IdentitySampler (insufficient initial states, empty tile)
-            return {"coq": None, "features": dict(feats, raised="ValueError"), "nontrivial": False}
-        raise
-    final = snap(ss)
+    except BinaryQuadraticModelStructureError:
+        raised = 'structure'
+    except ValueError:
+        if c["base"] != 'identity':
+            raise
+        raised = 'ValueError'
+    feats["raised"] = raised
+    terms = []
+    py_fail = None
     # the submitted problem, as the user wrote it
     if entry == 'sample':
         pterm = bqm_obs_term(T, args[0])
@@ -593,35 +681,99 @@ def run_bqm(c):
     else:
         pterm = poly_obs_term(T, 0, [], [(u, v, b) for (u, v), b in args[0].items()])
     spin = vt == 'SPIN'
-    py_fail = None
-    if final["vartype"] != vt:
-        py_fail = f"sample set vartype {final['vartype']} != problem vartype {vt}"
-    terms = [f"(CPost (PQuad {pterm}) {vars_term(T, variables, vt)} {res_term(T, final)})"]
-    # layers: result of layer i = what recs[i] returned; its child returned recs[i+1]
-    outs = [r.calls[-1][2] if r.calls else None for r in recs]
-    if any(o is None for o in outs):
-        py_fail = "a layer did not call its child"
-    else:
-        for i, l in enumerate(c["layers"]):
-            if l["t"] == 'trunc':
-                k = trunc_term(l)
+    vlist = clist([cnat(T.idx(v)) for v in variables])
+    # every structure layer that was reached: accept / reject as the model says, child untouched on rejection
+    for i, l in enumerate(c["layers"]):
+        if l["t"] == 'struct' and recs[i].attempts:
+            nodes, edges = structs[i]
+            _, _, _, bvars, bquad = inp_parts(*recs[i].attempts[-1])
+            rejected = raised == 'structure' and not recs[i + 1].attempts
+            terms.append("(CStruct %s %s %s %s %s %s)" % (
+                clist([cnat(T.idx(v)) for v in nodes]),
+                clist([cpair(cnat(T.idx(u)), cnat(T.idx(v))) for u, v in edges]),
+                clist([cnat(T.idx(v)) for v in bvars]),
+                clist([cpair(cnat(T.idx(u)), cnat(T.idx(v))) for u, v in bquad]),
+                cbool(rejected), cnat(len(recs[i + 1].attempts))))
+            feats["struct_rejected"] = feats.get("struct_rejected") or rejected
+    if raised == 'structure' and not feats.get("struct_rejected"):
+        py_fail = "BinaryQuadraticModelStructureError raised but no structure layer rejected"
+    # the base sampler, on what it was given and what it returned
+    base_seen = recs[-1].calls[-1][2] if recs[-1].calls else None
+    if recs[-1].attempts:
+        _, _, _, bvars, _ = inp_parts(*recs[-1].attempts[-1])
+        bvl = clist([cnat(T.idx(v)) for v in bvars])
+        seen_t = "None" if base_seen is None else f"(Some {res_term(T, base_seen)})"
+        if c["base"] == 'identity':
+            g = {'none': 'GNone', 'tile': 'GTile', 'random': 'GRandom'}[c["isg"]]
+            if "initial_states" in kw:
+                ini = kw["initial_states"]
+                ls = list(ini.variables)
+                for v in ls:
+                    T.idx(v)
+                rows = np.asarray(ini.record.sample).tolist()
+                conv = 0 if init_vt == vt else (1 if vt == 'BINARY' else 2)
             else:
-                k = "KPass"
-            terms.append(f"(CComp {k} {res_term(T, outs[i + 1])} {res_term(T, outs[i])})")
-        if c["base"] == 'exact':
-            call = recs[-1].calls[-1]
-            if call[0] == 'sample':
-                order = list(call[1].variables)
-            elif call[0] == 'ising':
-                order = list(dimod.BinaryQuadraticModel.from_ising(*call[1]).variables)
-            else:
-                order = list(dimod.BinaryQuadraticModel.from_qubo(call[1]).variables)
-            if set(map(repr, order)) != set(map(repr, variables)):
-                py_fail = f"the solver was given variables {order!r}, the problem has {variables!r}"
-            else:
-                terms.append(f"(CExact (PQuad {pterm}) {cbool(spin)} {clist([cnat(T.idx(v)) for v in order])} {res_term(T, outs[-1])})")
+                ls, rows, conv = list(bvars), [], 0
+            nr = "None" if c["num_reads"] is None else f"(Some {cnat(c['num_reads'])})"
+            terms.append("(CIdentity %s %s (PQuad %s) %s %s %s %s %s)" % (
+                g, nr, pterm, bvl, clist([cnat(T.idx(v)) for v in ls]), cnat(conv),
+                clist([clist([cq(F(x)) for x in r]) for r in rows]), seen_t))
+            feats["mismatch"] = c.get("mismatch") if "initial_states" in kw else None
+        elif raised is None or base_seen is not None:
+            if c["base"] == 'random':
+                terms.append("(CIdentity GRandom (Some %s) (PQuad %s) %s %s 0%%nat [] %s)" % (
+                    cnat(c["num_reads"]), pterm, bvl, bvl, seen_t))
+                terms.append(f"(CFromRows (PQuad {pterm}) {bvl} {res_term(T, base_seen)})")
+            elif c["base"] == 'sa':
+                terms.append(f"(CSa {cbool(not spin)} {bvl} {pterm} {res_term(T, base_seen)})")
+                terms.append(f"(CFromRows (PQuad {pterm}) {bvl} {res_term(T, base_seen)})")
+            elif c["base"] == 'null':
+                terms.append(f"(CNull {bvl} {res_term(T, base_seen)})")
+    if raised is None:
+        final = snap(ss)
+        if final["vartype"] != vt:
+            py_fail = f"sample set vartype {final['vartype']} != problem vartype {vt}"
+        terms.insert(0, f"(CPost (PQuad {pterm}) {vars_term(T, variables, vt)} {res_term(T, final)})")
+        # layers: result of layer i = what recs[i] returned; its child returned recs[i+1]
+        outs = [r.calls[-1][2] if r.calls else None for r in recs]
+        if any(o is None for o in outs):
+            py_fail = "a layer did not call its child"
+        else:
+            for i, l in enumerate(c["layers"]):
+                if l["t"] == 'trunc':
+                    k = trunc_term(l)
+                elif l["t"] == 'track':
+                    tr = objs[i]
+                    tm, tinp = tracked_method(tr.inputs[-1]) if tr.inputs else (None, None)
+                    if tm is None or tm != recs[i].attempts[-1][0]:
+                        py_fail = "TrackingComposite did not record the call"
+                        k = "KPass"
+                    else:
+                        k = "(KTrack %s %s %s %s %s)" % (cnat(len(T) + 2), cnat(len(tr.inputs)),
+                                                          inp_term(T, *recs[i].attempts[-1]), inp_term(T, tm, tinp),
+                                                          res_term(T, snap(tr.outputs[-1])))
+                        if len(tr.outputs) != len(tr.inputs):
+                            py_fail = "TrackingComposite inputs/outputs differ in length"
+                else:
+                    k = "KPass"
+                terms.append(f"(CComp {k} {res_term(T, outs[i + 1])} {res_term(T, outs[i])})")
+            if c["base"] == 'exact':
+                call = recs[-1].calls[-1]
+                if call[0] == 'sample':
+                    order = list(call[1].variables)
+                elif call[0] == 'ising':
+                    order = list(dimod.BinaryQuadraticModel.from_ising(*call[1]).variables)
+                else:
+                    order = list(dimod.BinaryQuadraticModel.from_qubo(call[1]).variables)
+                if set(map(repr, order)) != set(map(repr, variables)):
+                    py_fail = f"the solver was given variables {order!r}, the problem has {variables!r}"
+                else:
+                    terms.append(f"(CExact (PQuad {pterm}) {cbool(spin)} {clist([cnat(T.idx(v)) for v in order])} {res_term(T, outs[-1])})")
+    if not terms:
+        return {"coq": None, "py_fail": py_fail, "features": feats, "nontrivial": False}
     return {"coq": terms[0], "extra_coq": terms[1:], "py_fail": py_fail, "features": feats,
-            "nontrivial": len(variables) > 0, "observed": {"final": str(final)[:2000]}}
+            "nontrivial": len(variables) > 0 and raised is None,
+            "observed": {"final": str(snap(ss))[:2000] if ss is not None else raised}}
 
 
 def fold_selfloops(lin, quad):
